@@ -116,7 +116,7 @@ def _recover(env, date=None, withverify=False):
 
 
 def h_program(s0: int, s1: int, s2: int, s3: int, full: bool, quick: bool, gz: bool, killold: bool,
-              inflight: bool, rdate: int, nsteps: int) -> None:
+              inflight: bool, rdate: int, nsteps: int, wv: bool = False) -> None:
     steps = []
     for i, sv in enumerate((s0, s1, s2, s3)):
         if i < nsteps:
@@ -187,7 +187,7 @@ def h_program(s0: int, s1: int, s2: int, s3: int, full: bool, quick: bool, gz: b
         held = [i for i, sn in enumerate(snaps) if sn[0] <= date and any(nm.startswith(sn[0]) and not nm.endswith(('.dat', '.index')) for nm in names)]
         # a backup that found "no changes" wrote no file: its state equals that of the previous one
         try:
-            got = _recover(env, date=date)
+            got = _recover(env, date=date, withverify=wv)      # (with or without --with-verify: the same file)
             ok = True
         except RZ.NoFiles:
             ok = False
@@ -278,6 +278,15 @@ def h_verify_damage(kind: int, fsel: int, pos: int, gz: bool, quick: bool) -> No
             except Exception:
                 same = False
             assume(not same)
+        # what the user sees is the exit status of the script: a failed verification must not end with status 0
+        try:
+            RZ.main(['-V', '-r', REPO] + (['-Q'] if quick else []))
+            status_ok = True
+        except SystemExit as ex:
+            status_ok = ex.code in (0, None)
+        except Exception:
+            status_ok = False          # died with a traceback: non-zero as well
+        check(not (detected and status_ok), 'repozo --verify found a problem but the command ends with exit status 0', f, k)
         note('case', '%d%s%s' % (k, 'z' if gz else '', 'q' if quick else ''))
         if not quick:
             check(detected, 'full verification passed although a backup file is missing / truncated / altered', f, k)
@@ -375,6 +384,39 @@ def h_backup_fault(at: int, what: int, full: bool, quick: bool, gz: bool, retry_
     reached()
 
 
+def h_same_size(quick: bool, gz: bool, nextra: int) -> None:
+    """Equal-length transactions: full backup, [incremental], pack (drops a superseded revision), one more commit -> the
+    data file is exactly as long as at the last backup, with other content.  The next backup (-Q or not) must notice:
+    recover then yields the current committed file."""
+    ne = choose(nextra, 2)
+    with untraced():
+        env = _setup()
+        st = env.filestorage()
+        h = T.Hist(st)
+        X, Y = T.oid(1), T.oid(2)
+        for recs in ([(T.Z64, b'root-object')], [(X, b'x-version-1')], [(Y, b'y-version-1')]):
+            h.commit(recs)
+        st._file.flush()
+        _backup(env, 0, True, False, gz, False)
+        h.commit([(X, b'x-version-2')])
+        st._file.flush()
+        _backup(env, 1, False, quick, gz, False)
+        size_at_backup = len(env.fs.content(SRC))
+        st.pack(env.clock.time(), lambda p: [], gc=False)          # drops x-version-1
+        h.commit([(X, b'x-version-3')])                            # same length as the dropped transaction
+        for i in range(ne):
+            h.commit([(Y, b'y-version-%d' % (i + 2))])
+        st._file.flush()
+        now = _committed_prefix(bytes(env.fs.content(SRC)))
+        note('same_size', len(now) == size_at_backup)
+        _backup(env, 2, False, quick, gz, False)
+        got = _recover(env)
+        check(got == now, 'after a pack and further commits that restore the old file size, backup + recover do not yield the '
+                          'current committed data file', len(got), len(now), size_at_backup)
+        st.close()
+    reached()
+
+
 HARNESSES = [
     Harness('program', h_program,
             decides='after any program of commits / large commits / packs / backups (any option combination, optionally with a '
@@ -385,7 +427,7 @@ HARNESSES = [
             oracle='snapshot of the committed prefix of the source at each backup',
             code=['repozo.do_backup/do_full_backup/do_incremental_backup/do_recover/do_verify', 'find_files', 'scandat', 'concat',
                   'copyfile', 'dofile', 'checksum*', 'delete_old_backups', 'FileStorage (read_only) getSize'],
-            quick=dict(timeout=200, shards=shards(nsteps=[2], inflight=[False, True]) + shards(nsteps=[3], inflight=[True])),
+            quick=dict(timeout=330, shards=shards(nsteps=[2], inflight=[False, True]) + shards(nsteps=[3], inflight=[True])),
             thorough=dict(timeout=1500, shards=shards(nsteps=[2, 3, 4], inflight=[False, True]))),
     Harness('backup_fault', h_backup_fault,
             decides='a backup run disturbed at ANY one of its file operations (I/O error, or a commit to the live data file at that '
@@ -396,6 +438,12 @@ HARNESSES = [
             code=['repozo.do_backup', 'do_full_backup', 'do_incremental_backup', 'copyfile', 'dofile', 'scandat', 'find_files', 'do_recover'],
             quick=dict(timeout=200, shards=shards(gz=[False], full=[False, True])),
             thorough=dict(timeout=900, shards=shards(gz=[False, True], full=[False, True], quick=[False, True]))),
+    Harness('same_size', h_same_size,
+            decides='a pack followed by commits that bring the data file back to exactly its size at the last backup (equal-length '
+                    'transactions) is noticed by the next backup, quick or not: recover yields the current committed file',
+            symbolic='quick / gzip booleans, number of further commits (0-1)', bounds='history of equal-length transactions', oracle='committed prefix',
+            code=['repozo.do_backup (quick branch: size and checksum tests)', 'do_incremental_backup', 'do_full_backup'],
+            quick=dict(timeout=100, shards=shards()), thorough=dict(timeout=200, shards=shards())),
     Harness('verify_damage', h_verify_damage,
             decides='verify (and recover --with-verify) fail whenever a backup file is missing, cut at any length, or has any byte '
                     'altered; quick verify does so for sizes',
